@@ -77,6 +77,19 @@ pub struct Generated {
 }
 
 pub fn gen_game(s: &mut Stream, cfg: &GenCfg) -> Generated {
+    if cfg.max_nodes >= 600 && s.chance(16) {
+        // the configuration of the thread properties: one game in sixteen gives a player several
+        // hundred infosets (a long chain, or many deals)
+        return if s.bool() {
+            let pay = pick_pay(s, cfg);
+            let depth = 260 + ((s.u16() as usize * 440) >> 16);
+            Generated { tree: chain_of(s, pay, depth), family: "long-chain" }
+        } else {
+            let mut c = cfg.clone();
+            c.max_nodes = 100_000;
+            Generated { tree: gen_shared_wide(s, &c), family: "shared-wide" }
+        };
+    }
     let fam = if cfg.families {
         s.weighted(&[10, 2, 1, 1, 1, 1, 1, 1, 1])
     } else {
@@ -167,6 +180,14 @@ pub fn payoff(s: &mut Stream, pay: Pay) -> f64 {
         }
         Pay::AllEqual => 1.5,
     }
+}
+
+/// a payoff of the given kind from a hash instead of stream bytes: large families (hundreds of
+/// levels or deals) would exhaust the stream and end in identical payoffs everywhere
+pub fn payoff_h(pay: Pay, h: u64) -> f64 {
+    let bytes = h.to_be_bytes();
+    let mut s = Stream::new(&bytes);
+    payoff(&mut s, pay)
 }
 
 #[derive(Clone, Copy, Debug, PartialEq)]
@@ -456,14 +477,20 @@ fn gen_chain(s: &mut Stream, cfg: &GenCfg) -> T {
     } else {
         1 + s.below(if cfg.max_nodes >= 400 { 200 } else { 16 })
     };
-    let mut node = T::Term(payoff(s, pay));
+    chain_of(s, pay, depth)
+}
+
+fn chain_of(s: &mut Stream, pay: Pay, depth: usize) -> T {
+    let hashed = depth > 150;
+    let seed = if hashed { s.u32() as u64 } else { 0 };
+    let mut node = T::Term(if hashed { payoff_h(pay, crate::stream::mix2(seed, depth as u64)) } else { payoff(s, pay) });
     for d in (0..depth).rev() {
         let p = d % 2;
-        let stop = T::Term(payoff(s, pay));
+        let stop = T::Term(if hashed { payoff_h(pay, crate::stream::mix2(seed, d as u64)) } else { payoff(s, pay) });
         node = T::Player(
             p,
             format!("n{}", d),
-            if s.bool() {
+            if (if hashed { crate::stream::mix2(seed ^ 0x55, d as u64) & 1 == 1 } else { s.bool() }) {
                 vec![("stop".into(), stop), ("go".into(), node)]
             } else {
                 vec![("go".into(), node), ("stop".into(), stop)]
@@ -479,7 +506,7 @@ fn gen_shared_wide(s: &mut Stream, cfg: &GenCfg) -> T {
     let mut k = 2 + s.below(6);
     let mut a = 2 + s.below(3);
     let b = 2 + s.below(2);
-    if cfg.max_nodes >= 400 && s.chance(40) {
+    if cfg.max_nodes >= 100_000 || (cfg.max_nodes >= 400 && s.chance(40)) {
         // many deals (hundreds of infosets for the second mover) or a wide first mover
         if s.bool() {
             k = [40, 130, 150, 260, 300][s.below(5)];
@@ -490,7 +517,14 @@ fn gen_shared_wide(s: &mut Stream, cfg: &GenCfg) -> T {
     }
     let p = s.below(2);
     let second_sees = s.bool();
-    let w = weights(s, wt, k);
+    let many = k * a * b > 150;
+    let pseed = s.u32() as u64;
+    let w = if many && k > 8 {
+        // the weight generators are written for a handful of outcomes
+        (0..k).map(|o| 1.0 + (crate::stream::mix2(pseed ^ 0x77, o as u64) % 4) as f64).collect()
+    } else {
+        weights(s, wt, k)
+    };
     T::Chance(
         None,
         (0..k)
@@ -507,7 +541,12 @@ fn gen_shared_wide(s: &mut Stream, cfg: &GenCfg) -> T {
                                     T::Player(
                                         1 - p,
                                         if second_sees { format!("o{}", o) } else { "blind".into() },
-                                        (0..b).map(|j| (format!("b{}", j), T::Term(payoff(s, pay)))).collect(),
+                                        (0..b)
+                                            .map(|j| {
+                                                let v = if many { payoff_h(pay, crate::stream::mix2(pseed, ((o * 64 + i) * 8 + j) as u64)) } else { payoff(s, pay) };
+                                                (format!("b{}", j), T::Term(v))
+                                            })
+                                            .collect(),
                                     ),
                                 )
                             })
